@@ -40,7 +40,8 @@ def _kind_of(x):
     if isinstance(x, (bool, SymBool)):
         return 'b'
     if isinstance(x, (int, SymInt)):
-        return 'i'
+        b = getattr(x, 'bits', None)
+        return 'i' if b is None else K(*b)
     if isinstance(x, (float, SymFloat)):
         return 'f'
     return 'O'
@@ -49,8 +50,160 @@ def _kind_of(x):
 _KORD = {'b': 0, 'i': 1, 'f': 2, 'O': 3}
 
 
+# ---- integer dtypes narrower than the default int64 are machine words that wrap.  The kind of such an array
+#      is still 'i' (so every kind test keeps working) but carries (signed, width); int64 itself is treated as
+#      unbounded (documented assumption: no 64-bit overflow).
+class K(str):
+    def __new__(cls, signed, width):
+        o = str.__new__(cls, 'i')
+        o.bits = (signed, width)
+        return o
+
+    def __reduce__(self):
+        return (K, self.bits)
+
+
+_WEAK = 'weak'       # a python int / bool scalar: adopts the other operand's dtype (NEP 50)
+
+
+def _bits(k):
+    return getattr(k, 'bits', None)
+
+
+class _KW(str):
+    bits = _WEAK
+
+
+_KWEAK = _KW('i')
+
+
+def _mk_kind(bits):
+    return 'i' if bits is None or bits == _WEAK else K(*bits)
+
+
+def _promote_bits(x, y):
+    """numpy's result type for two integer dtypes (None = int64)."""
+    if x == _WEAK:
+        return y
+    if y == _WEAK:
+        return x
+    if x is None or y is None:
+        o = y if x is None else x
+        if o == (False, 64):
+            raise ModelGap("uint64 combined with int64 promotes to float64")
+        return None
+    (sx, wx), (sy, wy) = x, y
+    if sx == sy:
+        return (sx, builtins.max(wx, wy))
+    wu, ws = (wy, wx) if sx else (wx, wy)
+    if ws > wu:
+        return (True, ws)
+    if wu >= 64:
+        raise ModelGap("uint64 combined with a signed integer promotes to float64")
+    return None if 2 * wu >= 64 else (True, 2 * wu)
+
+
+def _wrap(v, bits):
+    """value of the mathematical integer v in a (signed, width) machine word."""
+    signed, w = bits
+    m = 1 << w
+    lo = -(m >> 1) if signed else 0
+    if isinstance(v, int):
+        return i64(((int(v) - lo) % m) + lo)
+    import z3 as _z3
+    return symx.mk_int(((v.t - lo) % _z3.IntVal(m)) + lo)
+
+
+class inarrow(i64):
+    """concrete numpy scalar of a narrow integer type (what indexing an int16 array returns)."""
+
+    def __new__(cls, v, bits):
+        o = int.__new__(cls, v)
+        o.bits = bits
+        return o
+
+    def __reduce__(self):
+        return (inarrow, (int(self), self.bits))
+
+
+class SymIntN(SymInt):
+    """symbolic numpy scalar of a narrow integer type."""
+    __slots__ = ('bits',)
+
+    def __init__(self, t, bits):
+        SymInt.__init__(self, t)
+        self.bits = bits
+
+
+def _scalar_bits(o):
+    """bits of an integer scalar operand; raises ModelGap where python-int vs int64 cannot be told apart."""
+    if isinstance(o, (inarrow, SymIntN)):
+        return o.bits
+    if type(o) in (int, bool):
+        return _WEAK
+    if isinstance(o, SymBool):
+        return _WEAK
+    if isinstance(o, i64):
+        return None
+    raise ModelGap("narrow integer combined with a symbolic integer scalar of unknown dtype")
+
+
+def _narrow_scalar(v, bits):
+    if bits is None or bits == _WEAK:
+        return _plain_int(v)
+    v = _wrap(_plain_int(v), bits)
+    return inarrow(int(v), bits) if isinstance(v, int) else SymIntN(v.t, bits)
+
+
+def _plain_int(v):
+    if isinstance(v, inarrow):
+        return i64(int(v))
+    if isinstance(v, SymIntN):
+        return SymInt(v.t)
+    return v
+
+
+def _narrow_op(f, rev=False):
+    def op(self, o):
+        if isinstance(o, (float, SymFloat)) and not isinstance(o, bool):
+            a = _plain_int(self)
+            return f(o, a) if rev else f(a, o)
+        if not isinstance(o, (int, SymInt, SymBool)):
+            return NotImplemented
+        bits = _promote_bits(self.bits, _scalar_bits(o))
+        a, b = _plain_int(self), _plain_int(o)
+        if isinstance(b, SymBool):
+            b = b._int()
+        r = f(b, a) if rev else f(a, b)
+        return _narrow_scalar(r, bits)
+    return op
+
+
+for _cls in (inarrow, SymIntN):
+    _cls.__add__ = _narrow_op(lambda a, b: a + b)
+    _cls.__radd__ = _narrow_op(lambda a, b: a + b, True)
+    _cls.__sub__ = _narrow_op(lambda a, b: a - b)
+    _cls.__rsub__ = _narrow_op(lambda a, b: a - b, True)
+    _cls.__mul__ = _narrow_op(lambda a, b: a * b)
+    _cls.__rmul__ = _narrow_op(lambda a, b: a * b, True)
+    _cls.__neg__ = lambda self: _narrow_scalar(-_plain_int(self), self.bits)
+    _cls.__abs__ = lambda self: _narrow_scalar(abs(_plain_int(self)), self.bits)
+    _cls.__pos__ = lambda self: self
+    _cls.__truediv__ = lambda self, o: _plain_int(self) / _plain_int(o)
+    _cls.__rtruediv__ = lambda self, o: _plain_int(o) / _plain_int(self)
+inarrow.__hash__ = lambda self: hash(int(self))
+inarrow.__repr__ = lambda self: int.__repr__(self)
+
+
 def _kmax(*ks):
-    return builtins.max(ks, key=lambda k: _KORD[k])
+    k = builtins.max(ks, key=lambda k: _KORD[k])
+    if k == 'i':
+        bits = _WEAK
+        for x in ks:
+            if x == 'i':
+                bits = _promote_bits(bits, _bits(x))
+        return _mk_kind(bits)
+    return k
 
 
 def _coerce(v, kind):
@@ -69,19 +222,9 @@ def _coerce(v, kind):
             return f64(v) if isinstance(v, int) else SymFloat(symx._zr(v))
         return f64(int(v)) if isinstance(v, bool) else SymFloat(symx._zr(v))
     if kind == 'i':
-        if k == 'i':
-            return i64(v) if type(v) is int else v
-        if k == 'b':
-            return i64(int(v)) if isinstance(v, bool) else SymInt(symx._zi(v))
-        if isinstance(v, float):
-            if v != v or v in (float('inf'), float('-inf')):
-                raise ValueError("cannot convert float NaN/inf to integer")
-            return i64(int(v))
-        # numpy casts by truncating toward zero (NaN flags are not representable: be honest about those)
-        if isinstance(v, SymFloat) and v.nan is None:
-            import z3 as _z3
-            return SymInt(_z3.If(v.t >= 0, _z3.ToInt(v.t), -_z3.ToInt(-v.t)))
-        raise ModelGap("storing a symbolic NaN-able real into an integer array")
+        r = _coerce_int(v, k)
+        b = _bits(kind)
+        return r if b is None else _wrap(r, b)
     if kind == 'b':
         if k == 'b':
             return v
@@ -89,6 +232,23 @@ def _coerce(v, kind):
             return v != 0
         return v != 0
     raise ModelGap("unknown kind " + kind)
+
+
+def _coerce_int(v, k):
+    if k == 'i':
+        v = _plain_int(v)
+        return i64(v) if type(v) is int else v
+    if k == 'b':
+        return i64(int(v)) if isinstance(v, bool) else SymInt(symx._zi(v))
+    if isinstance(v, float):
+        if v != v or v in (float('inf'), float('-inf')):
+            raise ValueError("cannot convert float NaN/inf to integer")
+        return i64(int(v))
+    # numpy casts by truncating toward zero (NaN flags are not representable: be honest about those)
+    if isinstance(v, SymFloat) and v.nan is None:
+        import z3 as _z3
+        return SymInt(_z3.If(v.t >= 0, _z3.ToInt(v.t), -_z3.ToInt(-v.t)))
+    raise ModelGap("storing a symbolic NaN-able real into an integer array")
 
 
 def _wrap_scalar(v):
@@ -203,6 +363,9 @@ class ndarray:
 
     @property
     def dtype(self):
+        b = _bits(self.kind)
+        if b is not None:
+            return _BITS_NAME[b]
         return {'b': bool, 'i': int, 'f': float, 'O': object}[self.kind]
 
     @property
@@ -222,6 +385,13 @@ class ndarray:
     def _flat_values(self):
         st = self._store
         return [st[i] for i in self._idx]
+
+    def _cells(self):
+        """elements as numpy scalars (narrow integer types keep their type: pandas cells)."""
+        b = _bits(self.kind)
+        if b is None:
+            return self._flat_values()
+        return [_narrow_scalar(v, b) for v in self._flat_values()]
 
     def tolist(self):
         def build(vals, shape):
@@ -461,6 +631,9 @@ class ndarray:
             raise IndexError("too many indices for array")
         offs, shape, view = self._resolve(key)
         if shape == ():
+            b = _bits(self.kind)
+            if b is not None:
+                return _narrow_scalar(self._store[offs[0]], b)
             return _wrap_scalar(self._store[offs[0]])
         if view:
             return ndarray(self._store, offs, shape, self.kind, self._writeable, self)
@@ -500,6 +673,9 @@ class ndarray:
     def _unary(self, f, kind=None):
         vals = [f(v) for v in self._flat_values()]
         k = kind or self.kind
+        b = _bits(k)
+        if b is not None:
+            vals = [_wrap(_plain_int(v), b) for v in vals]
         return ndarray(vals, list(range(len(vals))), self.shape, k)
 
     def _binary(self, o, f, kind_fn, rev=False):
@@ -520,6 +696,13 @@ class ndarray:
         if o is None or isinstance(o, (str, dict)):
             return NotImplemented
         ko = _kind_of(o)
+        if ko == 'i' and _bits(self.kind) is not None:
+            # scalar operand of a narrow integer array: python ints are weak, numpy scalars promote
+            sb = _scalar_bits(o)
+            ko = _KWEAK if sb == _WEAK else _mk_kind(sb)
+            o = _plain_int(o)
+        elif ko == 'i':
+            o = _plain_int(o)
         if rev:
             vals = [f(o, x) for x in self._flat_values()]
             k = kind_fn(ko, self.kind)
@@ -716,6 +899,55 @@ class ndarray:
         return cumsum(self)
 
 
+class LazyArray(ndarray):
+    """1-D signal of unbounded length of which only the values at finitely many (symbolic, pairwise distinct)
+    positions are known: indexing with exactly those position terms returns the values, every other access
+    leaves the modelled subset.  Lets sample positions be unbounded integers."""
+
+    def __init__(self, points, kind='f'):
+        ndarray.__init__(self, [], [], (1 << 40,), kind)
+        self._points = [(p, _coerce(v, kind)) for p, v in points]
+
+    def _lookup(self, i):
+        for p, v in self._points:
+            if isinstance(i, SymInt) and isinstance(p, SymInt):
+                if i.t.eq(p.t):
+                    return v
+            elif isinstance(i, int) and isinstance(p, int) and not isinstance(i, bool):
+                if int(i) == int(p):
+                    return v
+        raise ModelGap("lazy signal read at a position that is not one of its known cyclepoints")
+
+    def __getitem__(self, key):
+        if _is_series(key):
+            key = key._to_array()
+        elif isinstance(key, list):
+            key = asarray(key)
+        if isinstance(key, ndarray) and key.kind == 'i' and key.ndim == 1:
+            vals = [self._lookup(v) for v in key._flat_values()]
+            return ndarray(vals, list(range(len(vals))), (len(vals),), self.kind)
+        if isinstance(key, (int, SymInt)) and not isinstance(key, bool):
+            b = _bits(self.kind)
+            v = self._lookup(key)
+            return _narrow_scalar(v, b) if b is not None else _wrap_scalar(v)
+        raise ModelGap("lazy signal: unsupported index")
+
+    def __setitem__(self, key, value):
+        raise ModelGap("lazy signal: write")
+
+    def _flat_values(self):
+        raise ModelGap("lazy signal: whole-array operation")
+
+    def copy(self):
+        return LazyArray(self._points, self.kind)
+
+    def astype(self, t):
+        return LazyArray(self._points, _type_kind(t))
+
+    def __len__(self):
+        raise ModelGap("lazy signal: len()")
+
+
 def _arith_progression(idx):
     return len(idx) < 2 or builtins.all(idx[i + 1] - idx[i] == idx[1] - idx[0] for i in range(len(idx) - 1))
 
@@ -907,7 +1139,51 @@ def _bvals(a, shape):
     return out
 
 
+class _DType:
+    """dtype object of a narrow integer type (np.int16, arr.dtype of such an array)."""
+    def __init__(self, name, bits):
+        self.name, self.bits = name, bits
+        self.kind = 'i' if bits[0] else 'u'
+        self.itemsize = bits[1] // 8
+
+    def __eq__(self, o):
+        if isinstance(o, _DType):
+            return self.bits == o.bits
+        if isinstance(o, str):
+            return o == self.name
+        return False
+
+    def __ne__(self, o):
+        return not self.__eq__(o)
+
+    def __hash__(self):
+        return hash(self.name)
+
+    def __repr__(self):
+        return "dtype('%s')" % self.name
+
+    def __str__(self):
+        return self.name
+
+    def __call__(self, v):
+        return _narrow_scalar(_coerce_int(v, _kind_of(v)), self.bits)
+
+
+_NARROW = {}
+for _nm, _b in (('int8', (True, 8)), ('int16', (True, 16)), ('int32', (True, 32)),
+                ('uint8', (False, 8)), ('uint16', (False, 16)), ('uint32', (False, 32)), ('uint64', (False, 64))):
+    _NARROW[_nm] = _DType(_nm, _b)
+    globals()[_nm] = _NARROW[_nm]
+_BITS_NAME = {d.bits: d for d in _NARROW.values()}
+
+
 def _type_kind(t):
+    if isinstance(t, _DType):
+        return K(*t.bits)
+    if isinstance(t, str) and t in _NARROW:
+        return K(*_NARROW[t].bits)
+    if isinstance(t, K):
+        return t
     if t in (int, 'int', 'int64', 'i8'):
         return 'i'
     if t in (float, 'float', 'float64', 'f8'):
@@ -986,7 +1262,7 @@ def array(obj, dtype=None, copy=True):
 
 
 def asarray(obj, dtype=None):
-    if isinstance(obj, ndarray) and dtype is None:
+    if isinstance(obj, ndarray) and (dtype is None or (_type_kind(dtype) == obj.kind and _bits(_type_kind(dtype)) == _bits(obj.kind))):
         return obj
     if _is_series(obj) and dtype is None:
         return obj._to_array()
@@ -1351,7 +1627,7 @@ def cumsum(a):
             v = v._int()
         tot = tot + v
         out.append(tot)
-    k = 'i' if a.kind == 'b' else a.kind
+    k = 'i' if a.kind in ('b', 'i') else a.kind          # narrow integers accumulate in the platform int
     return ndarray._from_flat(out, (len(out),), k)
 
 
